@@ -81,6 +81,17 @@ pub struct Opts {
     pub avoid: Vec<String>,
 }
 
+#[derive(Clone, Debug)]
+pub struct Created {
+    pub rep: usize,
+    pub hash: ChangeHash,
+    /// isolation heads in force when the change was committed
+    pub iso_before: Option<Vec<ChangeHash>>,
+    /// replica's configured actor at commit time
+    pub actor: ActorId,
+    pub empty: bool,
+}
+
 pub struct StepOut {
     pub rep: usize,
     /// the step called a mutating library function
@@ -99,6 +110,7 @@ pub struct Interp {
     pub opts: Opts,
     pub classes: BTreeMap<&'static str, u64>,
     pub trace: Vec<String>,
+    pub created: Vec<Created>,
 }
 
 pub fn load_opts(enc: TextEncoding) -> LoadOptions<'static> {
@@ -139,6 +151,7 @@ impl Interp {
             opts,
             classes: BTreeMap::new(),
             trace: vec![],
+            created: vec![],
         };
         if it.opts.nkeys == 0 {
             it.opts.nkeys = KEYS.len();
@@ -216,10 +229,20 @@ impl Interp {
     /// commit pending ops of replica r (default options), recording the change
     pub fn commit(&mut self, r: usize) -> Option<ChangeHash> {
         let h = self.reps[r].doc.commit_with(CommitOptions::default().with_time(0));
-        if h.is_some() {
-            self.record_last_change(r);
-        }
+        self.note_created(r, h, false);
         h
+    }
+
+    fn note_created(&mut self, r: usize, h: Option<ChangeHash>, empty: bool) {
+        if let Some(hash) = h {
+            self.record_last_change(r);
+            let iso_before = self.reps[r].isolated.clone();
+            let actor = self.reps[r].actor.clone();
+            self.created.push(Created { rep: r, hash, iso_before, actor, empty });
+            if self.reps[r].isolated.is_some() {
+                self.reps[r].isolated = Some(vec![hash]);
+            }
+        }
     }
 
     pub fn knows_heads(&mut self, r: usize, h: &[ChangeHash]) -> bool {
@@ -421,15 +444,20 @@ impl Interp {
                 }
                 let h = self.reps[r].doc.commit_with(o);
                 if h.is_some() {
-                    self.record_last_change(r);
                     out.applied = true;
                 }
+                self.note_created(r, h, false);
                 self.record_heads(r);
             }
             EMPTY_CHANGE => {
+                if self.reps[r].isolated.is_some() {
+                    // empty_change inside isolate() is outside what C04/C29 state; not exercised
+                    self.class("excluded_empty_change_under_isolation");
+                    return out;
+                }
                 self.commit(r);
-                let _ = self.reps[r].doc.empty_change(CommitOptions::default().with_time(s.n).with_message("empty"));
-                self.record_last_change(r);
+                let h = self.reps[r].doc.empty_change(CommitOptions::default().with_time(s.n).with_message("empty"));
+                self.note_created(r, Some(h), true);
                 self.record_heads(r);
                 out.applied = true;
             }
@@ -496,6 +524,7 @@ impl Interp {
                     Ok(d) => {
                         let a = self.reps[r].actor.clone();
                         self.reps[r].doc = d.with_actor(a);
+                        self.class("save_load");
                         out.applied = true;
                     }
                     Err(e) => {
@@ -537,26 +566,28 @@ impl Interp {
                 if j != r {
                     self.commit(j);
                     self.commit(r);
+                    // saving from a clone: the source's incremental-save cursor is not disturbed
+                    let mut src = self.reps[j].doc.clone();
                     let bytes = match s.b % 3 {
-                        0 => self.reps[j].doc.save(),
+                        0 => src.save(),
                         1 => {
                             let h = self.reps[r].doc.get_heads();
                             if self.knows_heads(j, &h) {
-                                self.reps[j].doc.save_after(&h)
+                                src.save_after(&h)
                             } else {
-                                self.reps[j].doc.save_nocompress()
+                                src.save_nocompress()
                             }
                         }
                         _ => {
                             if !self.heads.is_empty() {
                                 let h = self.heads[sel(s.c, self.heads.len())].clone();
                                 if self.knows_heads(j, &h) {
-                                    self.reps[j].doc.save_after(&h)
+                                    src.save_after(&h)
                                 } else {
-                                    self.reps[j].doc.save()
+                                    src.save()
                                 }
                             } else {
-                                self.reps[j].doc.save()
+                                src.save()
                             }
                         }
                     };
